@@ -179,7 +179,52 @@ def run_pager(ctx, scen):
     ctx.note("pager", seen)
 
 
+def run_deep_chain(case, prop):
+    """Deep sibling chain, in a child process with the default recursion limit."""
+    import hashlib
+    import json as _json
+    import os
+    import subprocess
+    import sys
+
+    from .engine import Result
+    from .runner import known
+
+    res = Result()
+    spec = case["deep_chain"]
+    here = os.path.join(os.path.dirname(os.path.abspath(__file__)), "deepchain.py")
+    try:
+        cp = subprocess.run([sys.executable, "-B", here, _json.dumps(spec)], capture_output=True, text=True, timeout=600)
+        line = [l for l in cp.stdout.splitlines() if l.startswith("RESULT ")]
+        if cp.returncode != 0 or not line:
+            out = {"status": "died", "returncode": cp.returncode, "stderr": cp.stderr[:200]}
+        else:
+            out = _json.loads(line[-1][7:])
+    except subprocess.TimeoutExpired:
+        out = {"status": "timeout"}
+    res.stats["deep_chain_runs"] += 1
+    res.stats["deep_chain_status_" + out["status"]] += 1
+    res.digest = hashlib.sha256(repr((sorted(spec.items()), sorted((k, v) for k, v in out.items() if k != "stderr"))).encode()).hexdigest()
+    res.nontrivial = True
+    clause = prop + ".deep_sibling_chain"
+    res.evals[clause] += 1
+    bad = None
+    if out["status"] in ("RecursionError", "died"):
+        if spec["n"] >= 900 and known(prop, "deep_sibling_chain_overflows_the_interpreter_stack"):
+            res.probes["known:deep_sibling_chain_overflows_the_interpreter_stack"] += 1
+        else:
+            bad = "paginating %d sibling pages inserted in %s order: %s" % (spec["n"], spec.get("order", "asc"), out)
+    elif out["status"] != "ok" or out.get("complete_ordered") is False or out.get("complete") is False:
+        bad = "paginating %d sibling pages inserted in %s order (k=%r): %s" % (spec["n"], spec.get("order", "asc"), spec.get("k"), out)
+    if bad:
+        res.violation = (clause, bad)
+    return res
+
+
 def run_C09(case):
+    if case.get("deep_chain"):
+        return run_deep_chain(case, "C09")
+
     def final(ctx):
         for scen in case.get("pagers", []):
             run_pager(ctx, scen)
@@ -187,7 +232,19 @@ def run_C09(case):
     return run_sequential(case, sweep_C09, prop="C09", final=final)
 
 
+def gen_deep_chain(rng, prop, seed, what):
+    return {
+        "prop": prop,
+        "seed": seed,
+        "config": {"backend": "mem", "profile": "deep-chain"},
+        "ops": [],
+        "deep_chain": {"n": rng.choice([150, 300, 600]), "k": rng.choice([None, 1, 7, 50, 100]) if what == "pages" else rng.choice([None, 1, 5]), "order": rng.choice(["asc", "asc", "desc"]), "what": what, "links": what == "links"},
+    }
+
+
 def gen_C09(rng, tier, seed):
+    if rng.random() < (0.002 if tier == "quick" else 0.004):
+        return gen_deep_chain(rng, "C09", seed, "pages")
     g = Gen(rng, "C09", tier)
     if g.nops > 40:
         g.nops = 40
